@@ -818,7 +818,7 @@ fn main() {
     match cmd {
         "check" => {
             let thorough = arg(&args, "--tier").as_deref() == Some("thorough");
-            let secs: u64 = arg(&args, "--secs").and_then(|s| s.parse().ok()).unwrap_or(if thorough { 900 } else { 50 });
+            let secs: u64 = arg(&args, "--secs").and_then(|s| s.parse().ok()).unwrap_or(if thorough { 900 } else { 75 });
             let deadline = Instant::now() + Duration::from_secs(secs);
             let mut results = Vec::new();
             match prop.as_str() {
